@@ -207,6 +207,12 @@ def renderers(P):
         else:
             for g in meths:
                 rs.setdefault(g.name, g)
+    # a method that only selects among the renderers (matches on the format and calls them) is the dispatch, not a renderer
+    paths = {g.path for g in rs.values()}
+    for n_, g in sorted(rs.items()):
+        if n_ not in ("human_output", "json_output", "rdjson_output") and any(
+                call_name(x) in paths - {g.path} for x in g.walk() if x.get("k") in ("Call", "MethodCall")):
+            del rs[n_]
     if len(rs) < 3:
         raise AnchorMissing("the renderers of the CLI output cannot be identified: %s" % sorted(g.path for g in rs.values()))
     jsonish = {n: g for n, g in rs.items() if any("JSONObjectWriter" in (call_name(x) or "") for x in inlined(P, g).walk() if x.get("k") in ("Call", "MethodCall"))}
@@ -922,6 +928,15 @@ def r18f(P, R):
                 other = "line" if fld == "column" else "column"
                 exprs = list(_src_exprs(pv, c["args"][1]))
                 indirect = False
+                # `location.line as u32 + 1`: the value is one field of a struct of the CLI -> judge that field, not the whole struct
+                base = c["args"][1]
+                while base.get("k") in ("Cast", "DropTemps", "Use", "AddrOf", "Binary", "MethodCall"):
+                    base = base.get("e") or base.get("l") or base.get("recv") or {}
+                if base.get("k") == "Field" and (norm(base.get("adt")) or "").startswith(CLI):
+                    more, more_exprs = field_origins(P, {("field", norm(base["adt"]), base["field"])})
+                    if more:
+                        a, indirect = set(more), True
+                        exprs = [c["args"][1]] + more_exprs
                 if not has_field(a, POS, fld) and not has_field(a, POS, other):
                     # the value was copied into a struct of the CLI first (a located diagnostic): follow the field to where it is filled
                     a = {x for x in a if not (x[0] == "field" and (x[1] or "").startswith(CLI) and x[2] != key and x[2] != fld)}
